@@ -15,7 +15,11 @@ LIBSRC := $(wildcard $(REPO)/lib/*.cpp)
 LIBOBJ := $(patsubst $(REPO)/lib/%.cpp,$(BUILD)/lib/%.o,$(LIBSRC))
 
 
+-include $(H)/doms.mk
 -include $(H)/bins.mk
+
+.PHONY: domobjs
+domobjs: $(addprefix $(BUILD)/obj/,$(addsuffix .o,$(DOM_OBJS))) $(BUILD)/obj/common/domreg.o
 
 .PHONY: all clean
 all: $(addprefix $(BUILD)/bin/,$(BINS))
@@ -47,4 +51,4 @@ $(foreach b,$(BINS),$(eval $(call BIN_RULE,$(b))))
 clean:
 	rm -rf $(BUILD)
 
--include $(wildcard $(BUILD)/lib/*.d) $(wildcard $(BUILD)/obj/*.d)
+-include $(shell find $(BUILD) -name "*.d" 2>/dev/null)
